@@ -1,6 +1,7 @@
 package mcap
 
 import (
+	"errors"
 	"fmt"
 	"io"
 )
@@ -280,6 +281,16 @@ func ParseChunkIndex(buf []byte) (*ChunkIndex, error) {
 	}, nil
 }
 
+// unexpectedEOF turns a bare io.EOF into io.ErrUnexpectedEOF: when the input ends where a field of a
+// record is expected, the record is truncated or corrupt, and the resulting error must not satisfy
+// errors.Is(err, io.EOF), which callers use to detect the regular end of the file.
+func unexpectedEOF(err error) error {
+	if errors.Is(err, io.EOF) {
+		return io.ErrUnexpectedEOF
+	}
+	return err
+}
+
 func parseAttachmentReader(
 	r io.Reader,
 	computeCRC bool,
@@ -288,23 +299,23 @@ func parseAttachmentReader(
 	crcReader := newCRCReader(r, computeCRC)
 	logTime, err := readUint64(buf, crcReader)
 	if err != nil {
-		return nil, fmt.Errorf("failed to read record time: %w", err)
+		return nil, fmt.Errorf("failed to read record time: %w", unexpectedEOF(err))
 	}
 	createTime, err := readUint64(buf, crcReader)
 	if err != nil {
-		return nil, fmt.Errorf("failed to read create time: %w", err)
+		return nil, fmt.Errorf("failed to read create time: %w", unexpectedEOF(err))
 	}
 	name, err := readPrefixedString(buf, crcReader)
 	if err != nil {
-		return nil, fmt.Errorf("failed to read attachment name: %w", err)
+		return nil, fmt.Errorf("failed to read attachment name: %w", unexpectedEOF(err))
 	}
 	mediaType, err := readPrefixedString(buf, crcReader)
 	if err != nil {
-		return nil, fmt.Errorf("failed to read media type: %w", err)
+		return nil, fmt.Errorf("failed to read media type: %w", unexpectedEOF(err))
 	}
 	dataSize, err := readUint64(buf, crcReader)
 	if err != nil {
-		return nil, fmt.Errorf("failed to read attachment data size: %w", err)
+		return nil, fmt.Errorf("failed to read attachment data size: %w", unexpectedEOF(err))
 	}
 	limitReader := &io.LimitedReader{
 		R: crcReader,
